@@ -58,6 +58,10 @@ RULE = ('program trees: random (depth <= 5, counts 1-4, 1-4 children, leaf kinds
         'top-down (append_child on nodes that already have a parent, optionally with the root duration read after '
         'every append: incremental cache updates along the whole ancestor chain); for make_compatible on volatile '
         'programs the duration under two re-evaluations of the volatile parameters before and after. '
+        'Round 5: Repetition / Reversed / Subset / Functor / Arithmetic / Transforming / FunctionWaveform objects (plain '
+        'constructors, around constants and around ramps) as leaves x to_waveform next to equal / other constants, '
+        'make_compatible into one waveform, roll_constant_waveforms, flatten_and_balance, unroll_children (273 cases, the '
+        'same in every seed). '
         'Non-trivial = the rewrite returned and changed the tree, or failed with an error, on a program with >= 3 '
         'nodes; distinct = distinct canonical JSON of the case.')
 TRUSTED = [
@@ -153,6 +157,34 @@ def build_wf(d):
         return RepetitionWaveform.from_repetition_count(build_wf(d['b']), d['n'])
     if k == 'rev':
         return ReversedWaveform.from_to_reverse(build_wf(d['b']))
+    # round 5: the remaining Waveform classes as leaves, built with their plain constructors (no folding class method), so
+    # that the wrapper object itself is what the rewrites meet: constant_value_dict() of the wrapper decides whether
+    # from_sequence / from_repetition_count / roll_constant_waveforms treat the leaf as constant
+    if k == 'rep_raw':      # RepetitionWaveform(body, n): constant_value_dict() = the body's (Model.cvd (WRep b _) = cvd b)
+        return RepetitionWaveform(build_wf(d['b']), d['n'])
+    if k == 'rev_raw':      # ReversedWaveform(inner), also around a constant
+        return ReversedWaveform(build_wf(d['b']))
+    if k == 'subset':       # SubsetWaveform: constant_value_dict() = the inner one restricted to the subset, or None
+        from qupulse.program.waveforms import SubsetWaveform
+        return SubsetWaveform(build_wf(d['b']), set(d['chs']))
+    if k == 'functor':      # FunctorWaveform(inner, negate / identity per channel): never constant_value_dict()
+        import numpy as np
+        from qupulse.program.waveforms import FunctorWaveform
+        fs = {'neg': np.negative, 'pos': np.positive}
+        return FunctorWaveform(build_wf(d['b']), {c: fs[f] for c, f in d['f'].items()})
+    if k == 'arith':        # ArithmeticWaveform(lhs, op, rhs): never constant_value_dict()
+        from qupulse.program.waveforms import ArithmeticWaveform
+        return ArithmeticWaveform(build_wf(d['l']), d['op'], build_wf(d['r']))
+    if k == 'transf':       # TransformingWaveform(inner, ScalingTransformation): never constant_value_dict()
+        from qupulse.program.waveforms import TransformingWaveform
+        from qupulse.program.transformation import ScalingTransformation
+        return TransformingWaveform(build_wf(d['b']), ScalingTransformation({c: float(_fr(v)) for c, v in d['s'].items()}))
+    if k == 'func':         # FunctionWaveform a*t + b (exact on the dyadic grid)
+        from qupulse.program.waveforms import FunctionWaveform
+        from qupulse.expressions import ExpressionScalar
+        dur = _fr(d['d'])
+        return FunctionWaveform(ExpressionScalar('%s*t + %s' % (float(_fr(d['a'])), float(_fr(d['b0'])))),
+                                TimeType.from_fraction(dur.numerator, dur.denominator), d['ch'])
     raise ValueError(k)
 
 
@@ -1166,26 +1198,11 @@ def _is_nested(w):
 
 
 def classify(case, obs):
-    """Which listed finding (known_findings.d/C06.json) does this failing case belong to?"""
-    if case['kind'] == 'dec':
-        # the former known finding C06-float-local-time-nested is repaired in /repo (55554c3): a sample mismatch on the
-        # decimal stream is a violation again (the reference float path below only labels the histogram)
-        return None
-    if case['kind'] != 'rw' or 'input' not in obs:
-        return None
-    path, op = obs.get('last', [case['path'], case['op']])
-    if obs.get('stale') and op[0] in ('flatten', 'unroll'):
-        return 'C06-stale-parent-index'
-    try:
-        node = _node_at(obs.get('mid', obs['input']), path)
-    except (IndexError, KeyError):
-        return None
-    if op[0] == 'roll' and op[2] > 0 and _has_unaligned_const(node, op[2], F(op[3])):
-        return 'C06-roll-floor-division'
-    if op[0] == 'unroll_children' and not node['c'] and node['r'] != 1:
-        return 'C06-unroll-children-leaf'
-    if op[0] == 'split' and op[1] is not None and op[1] < 0:
-        return 'C06-split-negative-index'
+    """Which listed finding (known_findings.d/C06.json) does this failing case belong to?  None is listed any more (all
+    seven findings of rounds 1-4 are repaired in /repo), so every failing case is a violation.  Round-5 audit: the
+    predicates of the repaired findings (stale parent index, roll floor division, unroll_children of a leaf, negative
+    split index) were still computed here; their ids were in no list, so they could not hide anything, and they are
+    removed so that nobody re-lists an id with a predicate as wide as 'any split with a negative index'."""
     return None
 
 
@@ -1279,8 +1296,14 @@ def _json_wf_dur(w):
         return sum((_json_wf_dur(x) for x in w['l']), F(0))
     if k == 'rep':
         return _json_wf_dur(w['b']) * w['n']
-    if k == 'rev':
+    if k in ('rev', 'rev_raw', 'subset', 'functor', 'transf'):
         return _json_wf_dur(w['b'])
+    if k == 'rep_raw':
+        return _json_wf_dur(w['b']) * w['n']
+    if k == 'arith':
+        return _json_wf_dur(w['l'])
+    if k == 'func':
+        return F(w['d'])
     raise ValueError(k)
 
 
@@ -1556,6 +1579,68 @@ def gen_to_waveform_shapes(rng, tier):
                     if fk == 'const' and order == 0 or tier == 'thorough':
                         total = int(_json_dur(t)) // t['r']
                         rw(t, [], ['make_compat', total, total, '1'])
+    return cases
+
+
+WRAPPED_KINDS = ['rep_raw_c', 'rep_raw_t', 'rev_raw_c', 'rev_raw_t', 'subset_c', 'subset_t', 'functor_c', 'functor_t',
+                 'arith_cc', 'arith_tc', 'transf_c', 'transf_t', 'func']
+
+
+def _wrapped_leaf(kind, d, v='1/2'):
+    """single-channel ('A') leaf waveform of duration d (a power of two >= 2) of a class the random trees never build; `_c`:
+    made of constants with value v (whether the WRAPPER answers constant_value_dict() differs per class), `_t`: a ramp"""
+    const = lambda dur, val=v: {'k': 'const', 'd': str(dur), 'v': {'A': val}}
+    ramp = lambda dur: {'k': 'table', 'ch': 'A', 'e': [['0', '0', 'hold'], [str(dur), '1', 'linear']]}
+    both = lambda a: {'k': 'par', 'l': [a, {'k': 'const', 'd': a.get('d', str(d)), 'v': {'B': '-1'}}]}
+    return {
+        'rep_raw_c': lambda: {'k': 'rep_raw', 'b': const(F(d, 2)), 'n': 2},
+        'rep_raw_t': lambda: {'k': 'rep_raw', 'b': ramp(F(d, 2)), 'n': 2},
+        'rev_raw_c': lambda: {'k': 'rev_raw', 'b': const(d)},
+        'rev_raw_t': lambda: {'k': 'rev_raw', 'b': ramp(d)},
+        'subset_c': lambda: {'k': 'subset', 'b': both(const(d)), 'chs': ['A']},
+        'subset_t': lambda: {'k': 'subset', 'b': both(ramp(d)), 'chs': ['A']},
+        'functor_c': lambda: {'k': 'functor', 'b': const(d), 'f': {'A': 'neg'}},
+        'functor_t': lambda: {'k': 'functor', 'b': ramp(d), 'f': {'A': 'neg'}},
+        'arith_cc': lambda: {'k': 'arith', 'l': const(d), 'op': '-', 'r': const(d, '1/4')},
+        'arith_tc': lambda: {'k': 'arith', 'l': ramp(d), 'op': '+', 'r': const(d)},
+        'transf_c': lambda: {'k': 'transf', 'b': const(d), 's': {'A': '2'}},
+        'transf_t': lambda: {'k': 'transf', 'b': ramp(d), 's': {'A': '1/2'}},
+        'func': lambda: {'k': 'func', 'ch': 'A', 'd': str(d), 'a': '1/4', 'b0': '1'},
+    }[kind]()
+
+
+def gen_wrapped_leaves(rng, tier):
+    """Round 5 (audit of the quantifier 'leaf waveform kinds'): Repetition / Reversed / Subset / Functor / Arithmetic /
+    Transforming / FunctionWaveform OBJECTS as leaves (plain constructors).  Deterministic: every kind x the rewrites whose
+    decisions read constant_value_dict() of a leaf (to_waveform's from_sequence fold next to an equal / another constant,
+    make_compatible merging, roll_constant_waveforms) and two purely structural ones."""
+    cases = []
+    leaf = lambda w, r=1: {'r': r, 'w': w, 'm': [], 'c': []}
+    node = lambda ch, r=1: {'r': r, 'w': None, 'm': [], 'c': ch}
+    const = lambda dur, val: {'k': 'const', 'd': str(dur), 'v': {'A': val}}
+    ramp = lambda dur: {'k': 'table', 'ch': 'A', 'e': [['0', '1', 'hold'], [str(dur), '0', 'linear']]}
+    for kind in WRAPPED_KINDS:
+        w4, w32 = _wrapped_leaf(kind, 4), _wrapped_leaf(kind, 32)
+        twf = [node([leaf(w4, 3)]),
+               node([leaf(const(4, '1/2')), leaf(w4)]), node([leaf(w4), leaf(const(4, '1/2'))], 2),
+               node([leaf(const(2, '1/4')), leaf(w4), leaf(const(2, '1/4'))]),
+               node([leaf(const(2, '-1/2')), leaf(w4, 2)]), node([leaf(const(2, '1')), leaf(w4)]),
+               node([leaf(w4), node([leaf(ramp(4)), leaf(w4)], 2)])]
+        for t in twf:
+            cases.append({'kind': 'twf', 'build': {'tree': t, 'style': 'ctor', 'read_dur': False}})
+            tot = int(_json_dur(t))           # one waveform for the whole program: every child is too short
+            cases.append({'kind': 'rw', 'build': {'tree': t, 'style': 'ctor', 'read_dur': True}, 'path': [],
+                          'op': ['make_compat', tot, tot, '1']})
+        for mq, q in ((1, 1), (2, 4), (3, 2), (4, 1)):
+            t = node([leaf(w32, 2), leaf(ramp(8)), node([leaf(w32)], 3)])
+            cases.append({'kind': 'rw', 'build': {'tree': t, 'style': 'ctor', 'read_dur': mq % 2 == 0}, 'path': [],
+                          'op': ['roll', mq, q, '1']})
+        t = node([node([leaf(w4), leaf(ramp(4))], 2), leaf(w4, 2)], 2)
+        cases.append({'kind': 'rw', 'build': {'tree': t, 'style': 'append', 'read_dur': True}, 'path': [], 'op': ['flatten', 1]})
+        cases.append({'kind': 'rw', 'build': {'tree': t, 'style': 'ctor', 'read_dur': False}, 'path': [0],
+                      'op': ['unroll_children']})
+        cases.append({'kind': 'rw', 'build': {'tree': t, 'style': 'ctor', 'read_dur': True}, 'path': [],
+                      'op': ['make_compat', 8, 4, '1']})
     return cases
 
 
@@ -1841,6 +1926,7 @@ def gen_cases(rng, tier, ctx):
         b, t = gen_build(rng, tier, meas=False)
         add('twf', b)
     cases.extend(gen_to_waveform_shapes(rng, tier))
+    cases.extend(gen_wrapped_leaves(rng, tier))
     # --- smallest_factor_ge ------------------------------------------------------------------------------------------
     ns = range(1, 61) if tier == 'quick' else range(1, 401)
     for n in ns:
@@ -2131,12 +2217,20 @@ def search_failing(ctx, broken):
 
 
 MANIFEST = {
-    'level_text': 'Proof (Coq, all program trees, induction on tree / fuel / node count): every rewrite of loop.py modelled on '
+    'level_text': 'Proof (Coq, all program trees, induction on tree / fuel / node count) ABOUT THE MODEL, in which a leaf '
+                  'waveform that is not constant is an opaque atom: "same voltages" is proved as "the same atoms at the same '
+                  'local times and the same constants at every time" (same_play); that the sampled arrays of the real '
+                  'objects are equal before and after is TESTED on generated programs, not proved (see the clause map in '
+                  'notes/C06.md). Every rewrite of loop.py modelled on '
                   'the pure program tree (unroll, unroll_children, encapsulate, split_one_child, _merge_single_child, cleanup, '
                   'flatten_and_balance) preserves the exact list of played pieces and the duration; to_waveform, '
                   'make_compatible and roll_constant_waveforms preserve the voltage function (same_play) and the duration; '
                   'postconditions of flatten_and_balance (depth, balance), make_compatible (every leaf >= minimum and a '
-                  'multiple of the quantum) and cleanup; flatten_and_balance terminates on every tree. The same for programs '
+                  'multiple of the quantum) and cleanup; flatten_and_balance terminates on every tree and (round 5) always returns '
+                  'a result on a valid one; to_waveform and roll_constant_waveforms always return on valid programs, '
+                  'make_compatible returns unless the length of the program itself is incompatible and then fails with the '
+                  'ValueError (the other rewrites are structural recursions in the model; that the real code returns is '
+                  'tested with a time limit). The same for programs '
                   'with volatile repetition counts (Fixed n | Volatile n tag): unroll / split / flatten preserve the pulse at '
                   'the current values, encapsulate / merge / cleanup / roll_constant_waveforms under every re-evaluation of '
                   'the volatile parameters; make_compatible refines the plain rewrite (pulse, duration, postcondition at the '
@@ -2155,6 +2249,10 @@ MANIFEST = {
                   'voltages before/after are compared on the real objects, exactly for binary-fraction durations and under '
                   'an absolute tolerance of 2^-30 for decimal durations.',
     'level_note': 'Trusted: Coq kernel, harness (describer, reference player), leaf waveform sampling (C08), translator. '
+                  'Tested only: equality of sampled voltages on the real objects; "a failed rewrite leaves the program as it '
+                  'was" (the pure model has no state to damage); termination of the real code; leaf classes other than '
+                  'Constant / Table / MultiChannel / Sequence / Repetition / Reversed / Subset / Functor / Arithmetic / '
+                  'Transforming / FunctionWaveform objects. '
                   'The heap (parent pointers, aliasing, duration cache) is C09; here only the recorded index is modelled. '
                   'Binary64 sampling is tested under the tolerance, not proved. The former known finding '
                   'C06-float-local-time-nested is repaired in /repo (55554c3, rest e2c868b: tables with inner entries and '
